@@ -67,6 +67,14 @@ func (h hostileFetcher) val(s string) interface{} {
 	return hostilePool[(int(hash64(s)%1000003)+h.seed)%len(hostilePool)]
 }
 func (h hostileFetcher) Get(_ eval.VariableKey, s string) (eval.Value, error) {
+	switch h.seed { // uniform bindings: nothing short-circuits an and (-1) / an or (-2); every integer is 1 (-3)
+	case -1:
+		return true, nil
+	case -2:
+		return false, nil
+	case -3:
+		return int64(1), nil
+	}
 	if (int(hash64(s)%7)+h.seed)%11 == 0 {
 		return nil, m.ErrFetch
 	}
@@ -411,6 +419,26 @@ func sweepC06(tier string, shard, shards int, emit func(C06Case)) {
 		for _, infix := range []bool{false, true} {
 			emit(C06Case{Src: s, Infix: infix, Mask: 15, Undef: true, Events: 0, Binds: []int{1}, NoDump: len(s) > 10000, Origin: "sweep"})
 			emit(C06Case{Src: s, Infix: infix, Mask: 0, Undef: false, Events: 1, Binds: []int{2}, NoDump: len(s) > 10000, Origin: "sweep"})
+		}
+	}
+	// wide and/or programs, alone and nested so that ReduceNesting merges them: the narrow
+	// child-count and index fields must be protected by Compile, whatever the option set
+	for _, op := range []string{"and", "or", "&&", "||"} {
+		for _, shape := range [][2]int{{1, 127}, {1, 128}, {2, 64}, {2, 100}, {3, 90}, {4, 127}, {2, 127}} {
+			inner := "(" + op + rep(" x", shape[1]) + ")"
+			src := inner
+			if shape[0] > 1 {
+				src = "(" + op + rep(" "+inner, shape[0]) + ")"
+			}
+			for _, mask := range []int{0, 2, 15} {
+				emit(C06Case{Src: src, Mask: mask, Undef: true, Binds: []int{-1, -2, 7}, NoDump: true, Origin: "sweep-wide"})
+				emit(C06Case{Src: src, Mask: mask, Undef: true, Events: 1, Binds: []int{-1, -2}, NoDump: true, Origin: "sweep-wide"})
+			}
+		}
+	}
+	for _, op := range []string{"+", "*", "=", "c_sum"} {
+		for _, n := range []int{126, 127, 128, 129, 255, 256, 257} {
+			emit(C06Case{Src: "(" + op + rep(" x", n) + ")", Mask: 15, Undef: true, Binds: []int{-3, 7}, NoDump: true, Origin: "sweep-wide"})
 		}
 	}
 	// deep but valid nesting: recursion in parser / optimizer / builder ends in a program or an error
